@@ -141,6 +141,8 @@ func coqClass(k string) string {
 		return "EWrapsSafe"
 	case "custom":
 		return "ECustom"
+	case "cancelwrap":
+		return "EPlain" // an ordinary error, whatever it wraps
 	}
 	return "EPlain"
 }
